@@ -363,7 +363,7 @@ func TestCheck(t *testing.T) {
 		c.Rule("Part A (E1, pure functions through the verif export file): (i) linktestFailureStep and linktestDisconnectRecheck on EVERY row of suppress{off,on} x recvNow 0..4 x sentAt 0..4 x recvAtLastFail 0..4 x inflight{0,1,2} x fails 0..4 (3750 rows; stamps are only compared, so 0..4 realises every order) against the decision table written from the documentation; (ii) the fold: every history of <= 6 (thorough 8) probe rounds over 8 per-round observations {answered, timeout in silence, timeout with a frame before the probe, with a frame after the probe, with a reply outstanding, timeout + frame arriving only at the pre-disconnect re-check, timeout + reply outstanding only at the re-check, timeout with a frame at the very instant of the probe} x threshold 1..4 x suppression off/on, driven through a faithful copy of runLinktest's failure branch calling the two REAL functions, against a history-formulated reference (silent run = timed-out probes sent at or after the last received frame, since the last answered/credited probe): disconnect exactly when the run reaches the threshold and the last look shows no life; credited flags equal. A history stops at its disconnect. non-trivial = contains a timeout")
 		c.Rule("Part B (E2 tree search): real hsmsss connection (passive and active) in a synctest bubble, linktest interval 10 s, T6 3 s (thorough additionally interval 2 s < T6 3 s at the quick depths), threshold {1,2,3}, suppression off/on; after Selected the scripted peer plays EVERY script of length <= threshold+1 (thorough threshold+2) over the 11 per-round actions below, and every script of length threshold+2 (thorough threshold+3) over the 9 actions {A,I,B,D,P,W,R,F,K}; per-round actions {A answer the probe 100 ms after it, I ignore it, S answer it slowly (100 ms before T6 expires), L answer it late (1 s after T6 expired: the timeout stands, the frame counts as received, the library answers Reject.req), B send a W=0 S1F1 100 ms BEFORE the linktest timer is due and ignore the probe, D ignore the probe but send a W=0 S1F1 1 s after it (inside T6), P ignore the probe but send the peer's OWN Linktest.req 1 s after it (inside T6; the library answers it at once: a frame the library writes after the peer's sign of life says nothing against it), W the application starts a reply-expected send 100 ms before the timer is due that the peer never answers (T3 = 1 h) and the peer ignores the probe, R the peer answers every outstanding application send 100 ms before the timer is due and ignores the probe (only where a send is outstanding), F the application sends a fire-and-forget (W=0) message 100 ms before the timer is due and the peer ignores the probe: under suppression the probe is deferred by our own traffic, but a frame the library wrote is no sign of life and forgives nothing, K (passive role) a third party dials the library's port 100 ms before the timer is due and is refused while the peer ignores the probe: a refused connection is neither traffic on the session nor a sign of life}, then stays silent; scripts are deduplicated exactly (a trailing I equals the silent tail; nothing follows a disconnect). Oracle: the reference timeline computed from the same script by the documented rules — exact virtual time of every Linktest.req on the wire (chunk write times seen by the peer), exact time State() leaves Selected (silent peer: last probe + T6 with threshold consecutive counted timeouts; never while a reply is outstanding under suppression), socket closed, ControlMetrics() linktest counters (send/recv/err/credited/suppressed) equal to wire counts, every Linktest.req = session 0xFFFF, header-only, fresh system bytes; independent invariant under suppression: no Linktest.req within one interval of any frame in either direction nor while a reply is outstanding. state = script prefix (a live connection cannot be cloned)")
 		c.Rule("Part C (E2, after a failed write): {active, passive} x threshold {1,2,3} x suppression {on, off}: a reply-expected send into a closed peer window times out on its write (write timeout 0.5 s), the link is given up and re-established, the session selected again; then the peer stays silent: it is dropped after exactly threshold probes, within threshold x (interval 2 s + T6 1 s) + 0.5 s")
-		c.Rule("Part E (E2, deselected and selected again on the same connection): {active, passive} x threshold {1,2} x suppression {on, off} x time spent deselected {0.1 s, 3 s, 7 s} (interval 2 s, T6 1 s): after the re-select the peer falls silent and is dropped after exactly threshold probe timeouts")
+		c.Rule("Part E (E2, deselected and selected again on the same connection): {active, passive} x threshold {1,2} x suppression {on, off} x time spent deselected {both requests in one segment, 0, 0.1 s, 3 s, 7 s} (interval 2 s, T6 1 s): after the re-select the peer falls silent and is dropped after exactly threshold probe timeouts")
 		c.Rule("Part D (E2, T6 retuned on a live session): {active, passive} x threshold {1,2} x suppression {on, off} x {T6 1 s -> 3 s, 3 s -> 1 s by UpdateConfigOptions before the first probe}, interval 4 s, the peer answers every probe after 2 s: with the longer T6 the link is never dropped and no probe is counted as timed out; with the shorter one (suppression off, or threshold 1) it is dropped")
 		c.Assume("testing/synctest virtual time and durable-blocking detection", "sim in-memory network", "reference rules written from the doc comments of hsms.WithLinktestSuppression / WithLinktestFailThreshold / ConnectionMetrics and the prose above the two pure functions", "probe cadence (timer re-armed one interval after a probe round completes; under suppression re-armed to lastActivity+interval, or one interval later while a reply is outstanding) taken from runLinktest's comments", "no exact ties: peer actions are 100 ms / 1 s away from every library timer (ties between a frame and a timer are engine E3's domain; stamp equality is covered by Part A)")
 		if c.Replay != nil {
